@@ -165,6 +165,9 @@ def _hash_fields(ctx: Any, cls: ClassInfo) -> Tuple[Set[str], List[str], Optiona
             hexpr = st.value
     if hexpr is None:
         raise AnalysisError(f'{cls.full}.__init__: no `self._hash = ...` store found')
+    from .common import inline_helpers
+
+    hexpr = inline_helpers(ctx.prog, init, hexpr)  # `self._identity_hash(a, b)` -> the tuple hash the helper computes
     if not (isinstance(hexpr, ast.Call) and norm(hexpr.func) == 'hash' and len(hexpr.args) == 1 and isinstance(hexpr.args[0], ast.Tuple)):
         raise AnalysisError(f'{cls.full}.__init__: `_hash` is not hash((...tuple...)): {norm(hexpr)}')
     fields: Set[str] = set()
